@@ -184,6 +184,20 @@ Definition post_process (r : row) : row :=
   | None => r
   end.
 
+(* ---- Balancer.__restore_unbalanced: a row whose validated reaction a reagent template replaced falls back
+   to that reaction unless the reaction it carries after the second rule-based run is found balanced *)
+Definition pp_fires (r : row) : bool :=
+  match sby r with
+  | Some m => negb (String.eqb m M_INPUT) && match pp OR (rxn r) with Some _ => true | None => false end
+  | None => false
+  end.
+Definition balanced_rxn (s : string) : bool :=
+  Nat.eqb (length (split ">>" s)) 2 && verdict_eqb (compare_dicts (decomp OR (lhs s)) (decomp OR (rhs s))) Balance.
+Definition restore (before after : row) : row :=
+  if pp_fires before && negb (balanced_rxn (rxn after)) then set_rxn after (rxn before) else after.
+Fixpoint map2 {A B C} (f : A -> B -> C) (l : list A) (m : list B) : list C :=
+  match l, m with x :: l', y :: m' => f x y :: map2 f l' m' | _, _ => [] end.
+
 (* ---- ConfidencePredictor.predict with threshold key t *)
 Definition is_mcs_row (r : row) : bool :=
   match sby r with Some m => String.eqb m M_MCS | None => false end.
@@ -215,7 +229,7 @@ Definition stages_before_conf (rows0 : list row) : list row * stats :=
   let r5 := map mcs_impute r4 in
   let r6 := map (validate M_MCS true false None) r5 in
   let r7 := map post_process r6 in
-  let r8 := rule_based r7 in
+  let r8 := map2 restore r6 (rule_based r7) in
   let r9 := map (validate M_MCS true true (Some FINAL_MSG)) r8 in
   (r9, mkStats 0 (rb_balanced_cnt r1) (rb_applied_cnt r1) (rb_solved_cnt r1)
                (count_if has_mcs_key r4) (count_if mcs_solved_one r4) 0).
